@@ -237,6 +237,23 @@ def l0_suite(funcs, quick=1500, thorough=40000, monitor=None, nontrivial_keys=No
         return res
     return f
 
+def probe_monitor(*names):
+    """L0 probes (checks on the implementation alone whose answer must be ok) whose name starts with one of `names`"""
+    def mon(ctx, res, fn, case, impl, model, spec):
+        if fn != 'probe':
+            return
+        t = case.split()
+        if not any(t[2].startswith(n) for n in names):
+            return
+        if impl[:1] != ['ok']:
+            res.property_failures.append(dict(suite=res.name, case=case, what='probe ' + t[2] + ': ' + ' '.join(impl)[:400]))
+    return mon
+
+def sval_second_tag(case):
+    """storage-class tag of the second operand of an `order` case"""
+    t = case.split()
+    return t[3] if t[2] == 'N' else t[4]
+
 def stat_prefixes(funcs):
     m = {'order': ['order_'], 'layer': ['layer_'], 'layerpair': ['layerpair_'], 'merge_rows': ['merge_rows_'],
          'merge_values': ['merge_values_'], 'lww': ['lww_'], 'merge_laws': ['merge_laws_']}
@@ -532,7 +549,7 @@ register('C07', [l0_suite(['order', 'layer', 'layerpair'], monitor=c07_monitor,
 register('C17', [l0_suite(['lww'], monitor=l0_determined('the merged value is not the one the kv rule fixes (latest time wins; a tombstone beats every value; the earliest tombstone is kept)', domain_only=True)),
                  l1_suite(['plain', 'cb', 'json'], monitor=determined_result_monitor('kv package: a Get / cursor / Diff / TraceHistory result differs from what the rule fixes for this history'))],
          ['kv default configuration: int keys, string values; gob/JSON codecs are third-party'])
-register('C01', [l0_suite(['merge_rows', 'merge_values', 'merge_laws'], monitor=c01_laws_monitor),
+register('C01', [l0_suite(['merge_rows', 'merge_values', 'merge_laws', 'probe'], monitor=chain(c01_laws_monitor, probe_monitor('reopening-a-quiescent-table'))),
                  l1_suite(['rows', 'plain'], monitor=c01_two_orders_monitor),
                  l1_suite(['rows'], name='l1f', quick=300,
                           monitor=determined_result_monitor('a reader that merges the committed versions (after a storage fault has cleared) sees other rows than the merge of those versions')),
@@ -1095,6 +1112,7 @@ register('C06', [l2_suite('single'), mast_suite()],
          ['SQLite re-checks every constraint on rows returned by the cursor (no constraint is marked omit)',
           'write times set explicitly and non-decreasing', 'TEXT values are valid UTF-8'])
 register('C08', [l2_suite('single'), l0_suite(['merge_rows', 'merge_values'], monitor=c08_merge_monitor),
+                 l0_suite(['order'], monitor=lambda ctx, res, fn, case, impl, model, spec: (c07_monitor(ctx, res, fn, case, impl, model, spec) if case.split()[2] == sval_second_tag(case) else None), nontrivial_keys=c07_nontrivial),
                  l2_suite('multi', native=False, extra_monitor=c02_monitor, name='l2-multi')],
          ['TEXT values are valid UTF-8 (others must be refused)'])
 
@@ -1206,7 +1224,7 @@ def l1c_suite(quick=120, thorough=3000):
         return inner(ctx)
     return f
 
-register('C04', [l1c_suite(), l2_suite('tx', name='l2-tx', quick=40, thorough=1000,
+register('C04', [l1c_suite(), l1_suite(['rows', 'plain'], name='l1f', quick=250, monitor=chain(lambda *a: c14_monitor(*a), mutation_order_monitor, determined_result_monitor('after a storage fault an acknowledged commit is missing from (or an unacknowledged one is part of) what a later open merges'))), l2_suite('tx', name='l2-tx', quick=40, thorough=1000,
                                        determined='an acknowledged COMMIT is not what a later open shows'),
                  lambda ctx: l2_suite('faults', name='l2-faults', quick=80, thorough=1500,
                                       determined='after a COMMIT that failed (or a crash-like storage fault) a connection reads neither the state before nor the state after the transaction')(ctx)], ['a crash is the loss of every request after some point of the sequential request stream; node PUTs of one flush are explored in the order they were observed'])
@@ -1404,7 +1422,8 @@ register('C11', [l2_suite('changes', native=False, name='l2-changes', determined
                           determined='s3db_version() answers although the connection sees uncommitted rows that no version holds (or refuses / differs where a version identifies the visible rows)'),
                  lambda ctx: l2_suite('faults', name='l2-faults', quick=80, thorough=1500,
                                       determined='after a failed statement or COMMIT the rows a connection sees are not the rows of the versions it reports')(ctx),
-                 l1_suite(['rows', 'plain'], monitor=chain(mutation_order_monitor, determined_result_monitor('an open restricted to recorded versions (or a later read) returns other entries than those versions hold')))], [])
+                 l1_suite(['rows', 'plain'], monitor=chain(mutation_order_monitor, determined_result_monitor('an open restricted to recorded versions (or a later read) returns other entries than those versions hold'))),
+                 l1_suite(['rows', 'plain'], name='l1f', quick=250, monitor=chain(mutation_order_monitor, determined_result_monitor('an open or refresh next to an unreadable version publishes a new version although nothing changed (or reports other versions than the model)')))], [])
 register('C16', [l2_suite('multi', native=False, extra_monitor=c02_monitor, name='l2-multi'), l0_suite(['nodecodec']), l1_suite(['rows']), mast_suite(),
                  l2_suite('vacuum', native=False, extra_monitor=c09_monitor, name='l2-vacuum', quick=40, thorough=1000),
                  l2_suite('faults', name='l2-faults', quick=80, thorough=1500,
@@ -1442,6 +1461,8 @@ register('C14', [l1_suite(['rows', 'plain', 'cb'], name='l1f', quick=250,
 def c18_monitor(ctx, res, fn, case, impl, model, spec):
     t = case.split()
     if fn == 'probe':
+        if t[2].startswith('reopening-a-quiescent'):
+            return      # (a probe of C01)
         if impl[:1] != ['ok']:
             res.property_failures.append(dict(suite=res.name, case=case, impl=' '.join(impl)[:600],
                                               what='probe ' + t[2] + ': ' + ' '.join(impl[1:])[:300]))
